@@ -2,6 +2,8 @@
 import random
 
 import exprgen as X
+import impl
+import probes
 import proggen as P
 from core import Verdict
 from props import layout_base as LB
@@ -16,7 +18,19 @@ EXPLANATION = ('Theorems in Props/C11.lean: w bytes of v mod 2^(8w) in the confi
                'after escape processing (+ terminator), fill/zero/zerountil sizes and contents. Correspondence: image.')
 ASSUMPTIONS = ['Python\'s unicode_escape decoder is modelled for the listed escapes only; invalid escapes (\\xZ) are not generated',
                'a string contains no unescaped quote of its own kind (that is malformed and rejected)']
-to_impl, to_model = LB.to_impl, LB.to_model
+
+
+def to_impl(case):
+    if case.get('unit'):
+        return probes.call('split_commas', case['text'])
+    return LB.to_impl(case)
+
+
+def to_model(case):
+    if case.get('unit'):
+        return {'op': 'split', 'text': case['text']}
+    return LB.to_model(case)
+
 
 PLAIN = [c for c in (chr(i) for i in range(32, 127)) if c not in '"\'\\']
 ESC = ['\\n', '\\t', '\\r', '\\\\', '\\0', '\\x41', '\\x7e', '\\x00', '\\xfF', '\\101', '\\7', '\\a', '\\b', '\\f', '\\v', '\\12']
@@ -155,12 +169,42 @@ def gen_case(rng, tier):
             'flags': sorted(flags)}
 
 
+def gen_split(rng):
+    """function-level probe of the value-list splitter (utilities.split_on_commas): either a list of well-tokenised items
+    joined by commas (must come back item for item) or an arbitrary string over a small alphabet (model only)"""
+    if rng.random() < 0.6:
+        items = []
+        for _ in range(rng.randint(1, 5)):
+            it = ''
+            for _j in range(rng.randint(0, 4)):
+                it += rng.choice(["','", "'''", "'a'", "' '", 'x', '1', ' ', '+', '(', ')', '$f', '"'])
+            items.append(it)
+        return {'unit': 'split', 'text': ','.join(items), 'items': items, 'flags': ['unit-split-items']}
+    text = ''.join(rng.choice([',', "'", 'a', '1', ' ', ',', "'", '+']) for _ in range(rng.randint(0, 12)))
+    return {'unit': 'split', 'text': text, 'items': None, 'flags': ['unit-split-arbitrary']}
+
+
 def generate(rng, tier):
-    return [gen_case(rng, tier) for _ in range(500 if tier == 'quick' else 12000)]
+    n = 500 if tier == 'quick' else 12000
+    return [gen_case(rng, tier) for _ in range(n)] + [gen_split(rng) for _ in range(n // 3)]
 
 
 def judge(case, ir, mr):
     tags = ['flag=' + f for f in case['flags']]
+    if case.get('unit'):
+        got = ir['ret']['items'] if ir['status'] == 'ok' and isinstance(ir.get('ret'), dict) else None
+        det = f'text={case["text"]!r} split_on_commas={got} model={mr["impl"]} str.split={mr["spec"]}'
+        if got is None:
+            return {'verdict': Verdict.VIOLATION, 'tags': tags, 'detail': 'split_on_commas failed: ' + str(ir.get('msg'))[:200] + det}
+        if case['items'] is not None and got != case['items']:
+            return {'verdict': Verdict.VIOLATION, 'tags': tags, 'detail': f'the values {case["items"]} are not split back: ' + det}
+        if "'" not in case['text'] and got != mr['spec']:
+            return {'verdict': Verdict.VIOLATION, 'tags': tags, 'detail': 'differs from str.split on a text without quotes: ' + det}
+        if ','.join(got) != case['text']:
+            return {'verdict': Verdict.VIOLATION, 'tags': tags, 'detail': 'items joined by commas are not the text: ' + det}
+        if got != mr['impl']:
+            return {'verdict': Verdict.CORR, 'tags': tags, 'detail': 'model and code split differently: ' + det}
+        return {'verdict': Verdict.OK, 'nontrivial': "'" in case['text'] and ',' in case['text'], 'tags': tags, 'detail': det[:300]}
     bad, actual, det = LB.base_judge(case, ir, mr, tags)
     if bad:
         return bad
